@@ -13,7 +13,8 @@
      k=4  chunks shared outside any link record after a rename / plain overwrite of a linked name
    Every one of them needs a manifest chunk or a hard link; the partial theorems hold for every
    history of operations that involve neither (c20_quiet: the assumptions of op_ok, no Link, no
-   manifest chunk, a renamed entry is a file). *)
+   manifest chunk, a renamed entry is a file).  Outside c20_quiet the property rests on the
+   correspondence check, whose triggers are per offending chunk (see c20_failures_complete ff.). *)
 From Coq Require Import List NArith ZArith Bool String.
 From SW Require Import model.Chunks model.HardLink model.FilerGC
   proof.FilerGCBase proof.FilerGCMain.
@@ -72,15 +73,55 @@ Theorem c20_all_garbage_scheduled_refuted :
 Proof. exact all_garbage_scheduled_refuted. Qed.
 Print Assumptions c20_all_garbage_scheduled_refuted.
 
-(* each witness fails at a step that its trigger names *)
+(* ---------- the triggers of the known findings are PER OFFENDING CHUNK (model/FilerGC.v [explain]) ----------
+   [failures] lists one entry per chunk id that is scheduled while still referenced, or leaked, at any
+   step of the model's run; [first_failure] is Some (Some k) only if EVERY such chunk of EVERY failing
+   step satisfies the syntactic condition of a known finding (evaluated on the state before the step and
+   the operation's arguments; k=4 on a set of tainted chunk ids instead of a sticky flag). *)
+
+(* the failure list is empty exactly when the property holds at every step: nothing is dropped *)
+Theorem c20_failures_complete : forall ev ops taint s,
+  failures ev taint s ops = [] <-> c20_run_ok ev s ops = true.
+Proof. exact failures_complete. Qed.
+Print Assumptions c20_failures_complete.
+
+Theorem c20_first_failure_none : forall ev ops,
+  first_failure ev ops = None <-> c20_run_ok ev empty_st ops = true.
+Proof. exact first_failure_none. Qed.
+Print Assumptions c20_first_failure_none.
+
+(* inside the hypothesis of the partial theorems no chunk offends, so no trigger is consulted *)
+Theorem c20_quiet_no_failures : forall ev ops,
+  c20_hist_quiet ev empty_st ops = true -> first_failure ev ops = None.
+Proof. exact quiet_no_failures. Qed.
+Print Assumptions c20_quiet_no_failures.
+
+(* each witness fails, and every offending chunk is explained by the finding it is the witness of *)
 Theorem c20_witness_triggers :
-  first_failure g_ev0 false empty_st g_w0 = Some (Some 0%N) /\
-  first_failure g_ev false empty_st g_w1 = Some (Some 1%N) /\
-  first_failure g_ev false empty_st g_w2 = Some (Some 2%N) /\
-  first_failure g_ev3 false empty_st g_w3 = Some (Some 3%N) /\
-  first_failure g_ev false empty_st g_w4 = Some (Some 4%N).
+  first_failure g_ev0 g_w0 = Some (Some 0%N) /\
+  first_failure g_ev g_w1 = Some (Some 1%N) /\
+  first_failure g_ev g_w2 = Some (Some 2%N) /\
+  first_failure g_ev3 g_w3 = Some (Some 3%N) /\
+  first_failure g_ev g_w4 = Some (Some 4%N).
 Proof. exact witness_triggers. Qed.
 Print Assumptions c20_witness_triggers.
+
+(* a different violation does not hide behind a trigger: the k=1 witness plus an unrelated live delete
+   (chunk 7, shared by two plain files) is unclassified *)
+Theorem c20_unexplained_not_classified : first_failure g_ev g_w1x = Some None.
+Proof. exact unexplained_not_classified. Qed.
+Print Assumptions c20_unexplained_not_classified.
+
+(* hard links and manifests as such trigger nothing: the mount's link / write-through / unlink sequence and
+   an UpdateEntry that wraps chunks into a manifest satisfy the client assumptions, lie outside c20_quiet
+   and hold the property at every step *)
+Theorem c20_clean_outside_quiet :
+  (assumptions_hold g_ev g_mount = true /\ c20_hist_quiet g_ev empty_st g_mount = false /\
+   first_failure g_ev g_mount = None) /\
+  (assumptions_hold g_ev0 g_wrapu = true /\ c20_hist_quiet g_ev0 empty_st g_wrapu = false /\
+   first_failure g_ev0 g_wrapu = None).
+Proof. exact clean_outside_quiet. Qed.
+Print Assumptions c20_clean_outside_quiet.
 
 (* non-vacuity: overwrites with retained, covered and fresh chunks, an append, a rename onto an
    existing file, deletes with and without data, a recursive delete — all inside the hypothesis of
@@ -91,3 +132,4 @@ Example c20_example :
     [[]; []; [2]; [4; 5]; []; []; [1; 6]; []; []; [9]; [8]]%N /\
   final g_ev empty_st g_clean = empty_st.
 Proof. exact clean_is_quiet. Qed.
+Print Assumptions c20_example.
